@@ -409,3 +409,166 @@ Fixpoint comm_ok (cl : list nat) (live : nat -> list nat) (ops : list cop) (obs 
 
 Definition peers_below (P : nat) (ops : list cop) : bool :=
   forallb (fun o => match o with CSend _ p => Nat.ltb p P | CClose _ => true end) ops.
+
+(* ------------------------------------------------------------------------------------------ *)
+(* Part 5.  Admission versus teardown.  The deferred cleanup of Execute (tss/coordinator.go):
+        cancel()
+        c.communication.CloseSession(sessionID)                      // TClose
+        c.processLock.Lock(); c.pendingProcesses[sessionID] = false; c.processLock.Unlock()   // TClear
+        for _, process := range tssProcesses { process.Stop() }      // TStop 0 .. TStop (np-1)
+   A teardown is a list of such steps, performed in order; a request for the same session id can
+   arrive between any two of them (after the first k steps): it is refused iff the pending flag is
+   still set.  When the teardown starts no process of the run is inside Run any more (Execute has
+   waited for them).  CloseSession is keyed by the session id - performed after a new run of the id
+   was admitted it hits the streams of the NEW run; Stop only touches the old process objects.   *)
+Inductive tstep := TClose | TClear | TStop (p : nat).
+
+Record tst := mkT { t_closed : nat; t_pend : bool; t_stops : list nat }.
+
+Definition tdo (st : tst) (s : tstep) : tst :=
+  match s with
+  | TClose => mkT (S (t_closed st)) (t_pend st) (t_stops st)
+  | TClear => mkT (t_closed st) false (t_stops st)
+  | TStop p => mkT (t_closed st) (t_pend st) (p :: t_stops st)
+  end.
+
+(* the run is live: flag set, nothing closed, nothing stopped *)
+Definition tinit : tst := mkT 0 true [].
+
+Definition trun (st : tst) (l : list tstep) : tst := fold_left tdo l st.
+
+Definition code_teardown (np : nat) : list tstep := TClose :: TClear :: map TStop (seq 0 np).
+
+(* "closing the streams can take a while, don't hold up new requests": the flag is cleared first *)
+Definition early_clear_teardown (np : nat) : list tstep := TClear :: TClose :: map TStop (seq 0 np).
+
+Definition is_tclose (s : tstep) : bool := match s with TClose => true | _ => false end.
+
+(* the state a request finds that arrives when the first k steps are done *)
+Definition arrive (order : list tstep) (k : nat) : tst := trun tinit (firstn k order).
+Definition admitted_at (order : list tstep) (k : nat) : bool := negb (t_pend (arrive order k)).
+(* CloseSession calls of the old run still to come at that moment *)
+Definition late_closes (order : list tstep) (k : nat) : nat := length (filter is_tclose (skipn k order)).
+
+(* every CloseSession precedes the clearing of the flag *)
+Fixpoint closes_before_clear (l : list tstep) : bool :=
+  match l with
+  | [] => true
+  | TClear :: r => negb (existsb is_tclose r)
+  | _ :: r => closes_before_clear r
+  end.
+
+Definition stops_vec (np : nat) (st : tst) : list nat :=
+  map (fun p => count_occ Nat.eq_dec (t_stops st) p) (seq 0 np).
+
+(* what the harness sees of the second request while the teardown of the first run is parked *)
+Inductive tdec := TRefused | TAdmitted | TWaited.
+
+Definition tdec_eqb (a b : tdec) : bool :=
+  match a, b with
+  | TRefused, TRefused | TAdmitted, TAdmitted | TWaited, TWaited => true
+  | _, _ => false
+  end.
+
+(* the harness parks the teardown INSIDE CloseSession (at = 0: no step is complete) or inside
+   Stop of process at-1 (CloseSession, the clearing of the flag and the Stops before it are) *)
+Definition tear_pos (at_ : nat) : nat := match at_ with 0 => 0 | S i => 2 + i end.
+
+Definition model_dec (np at_ : nat) : tdec :=
+  if admitted_at (code_teardown np) (tear_pos at_) then TAdmitted else TRefused.
+
+Fixpoint natl_eqb (a b : list nat) : bool :=
+  match a, b with
+  | [], [] => true
+  | x :: a', y :: b' => Nat.eqb x y && natl_eqb a' b'
+  | _, _ => false
+  end.
+
+(* The specification of a tear case, on the observations alone.
+   dec / fin: what happened to the second request while the teardown was parked / in the end;
+   closed_before: CloseSession calls of the first run complete when the second request was issued;
+   late: CloseSession calls for the id that completed after the second request had been admitted
+   (and before it was allowed to end); live_at_b: processes of the first run inside Run when the
+   second request was decided; ret_parked: the first Execute returned with a teardown step still
+   parked; stops_after / closes: per process Stop calls / CloseSession calls complete after the
+   first Execute returned and the gate was opened; third: a third request, after everything ended,
+   was admitted; pend_after: the pending flag in the end.
+   - a request admitted during the teardown finds the session closed and no old process running,
+     and no CloseSession of the old run comes after its admission;
+   - when Execute has returned the session is closed and every process stopped exactly once;
+   - afterwards the id can be started again. *)
+Definition tear_ok (np : nat) (dec fin : tdec) (closed_before late live_at_b : nat) (ret_parked : bool)
+    (stops_after : list nat) (closes : nat) (third pend_after : bool) : bool :=
+  (match dec with TAdmitted => Nat.leb 1 closed_before && Nat.eqb live_at_b 0 | _ => true end)
+  && (match fin with TAdmitted => Nat.eqb late 0 | TRefused => true | TWaited => false end)
+  && negb ret_parked
+  && natl_eqb stops_after (repeat 1 np)
+  && Nat.leb 1 closes && third && negb pend_after.
+
+(* ------------------------------------------------------------------------------------------ *)
+(* Part 6.  Libp2pCommunication with faults at the streams (comm/p2p/libp2p.go sendMessage):
+        stream, err = c.streamManager.Stream(sessionID, to)
+        if err != nil {
+            stream, err = c.h.NewStream(...)          // may fail: [open_fails]
+            if err != nil { return err }
+            c.streamManager.AddStream(sessionID, to, stream)      // registered as soon as it is open
+        }
+        err = WriteStream(msg, ...)                   // may fail: [wf x] = the first write on x fails
+   A broadcast to several peers is a sequence of sends (distinct peers touch distinct map entries).
+   [RegAfterWrite] is the variant that registers a fresh stream only after its first write
+   succeeded ("only keep streams that work") - it is refuted.                                      *)
+Inductive regpol := RegOnOpen | RegAfterWrite.
+
+Inductive wop := WSend (s p : nat) (open_fails : bool) | WClose (s : nat).
+
+(* seen at the host and at the streams: the streams handed out / written to / closed or reset
+   while the operation ran *)
+Inductive wobs := WSent (opened wrote released : list nat) | WClosed (xs : list nat).
+
+Definition wstep (pol : regpol) (wf : nat -> bool) (P : nat) (st : ccst) (o : wop) : ccst * wobs :=
+  let (m, nx) := st in
+  match o with
+  | WSend s p ofail =>
+      match sm_get m s p with
+      | Some x => (st, WSent [] [x] [])
+      | None =>
+          if ofail then (st, WSent [] [] [])
+          else let m' := match pol with
+                         | RegOnOpen => sm_add m s p nx
+                         | RegAfterWrite => if wf nx then m else sm_add m s p nx
+                         end in
+               ((m', S nx), WSent [nx] [nx] [])
+      end
+  | WClose s => let (m', c) := sm_release P m s in ((m', nx), WClosed c)
+  end.
+
+Fixpoint model_wobs (pol : regpol) (wf : nat -> bool) (P : nat) (st : ccst) (ops : list wop) : list wobs :=
+  match ops with
+  | [] => []
+  | o :: ops' => let (st', ob) := wstep pol wf P st o in ob :: model_wobs pol wf P st' ops'
+  end.
+
+Definition none_in (xs cl : list nat) : bool := forallb (fun x => negb (memb x cl)) xs.
+
+(* The specification, on the observations alone.  [cl]: the streams released by CloseSession calls
+   so far; [rl]: the streams released (closed / reset) while a send ran; [live s]: the streams opened
+   for / used by session s since its last CloseSession.
+   - nothing is written to (and no stream handed out is) a stream a CloseSession released before;
+   - CloseSession s releases every stream that was opened for s since its last CloseSession,
+     whatever happened on it (unless it was released already);
+   - CloseSession s releases no stream another session (ids below S) is using. *)
+Fixpoint wcomm_ok (S : nat) (cl rl : list nat) (live : nat -> list nat) (ops : list wop) (obs : list wobs) : bool :=
+  match ops, obs with
+  | [], [] => true
+  | WSend s p _ :: ops', WSent o w r :: obs' =>
+      none_in w cl && none_in o cl
+      && wcomm_ok S cl (r ++ rl) (upd live s (o ++ w ++ live s)) ops' obs'
+  | WClose s :: ops', WClosed xs :: obs' =>
+      forallb (fun x => memb x xs || memb x cl || memb x rl) (live s)
+      && forallb (fun s' => Nat.eqb s' s || none_in (live s') xs) (seq 0 S)
+      && wcomm_ok S (xs ++ cl) rl (upd live s []) ops' obs'
+  | _, _ => false
+  end.
+
+Definition wpeers_below (P : nat) (ops : list wop) : bool :=
+  forallb (fun o => match o with WSend _ p _ => Nat.ltb p P | WClose _ => true end) ops.
